@@ -5,34 +5,44 @@ Import ListNotations.
 Require Import MayV.Rt.PoisonModel MayV.Rt.PoisonInv MayV.Rt.PoisonPres.
 
 (* ---- the decision table ---- *)
-Lemma done_stores_spec gpan tpan isco cst :
-  done_stores gpan tpan isco cst = true <-> gpan = false /\ tpan = true /\ ~ (isco = true /\ cst = 1%Z).
+Lemma done_stores_spec gpan tpan isco cunw :
+  done_stores gpan tpan isco cunw = true <-> gpan = false /\ tpan = true /\ ~ (isco = true /\ cunw = true).
 Proof.
-  unfold done_stores, is_canceled.
+  unfold done_stores. destruct gpan, tpan, isco, cunw; cbn; split; intro H;
+    try discriminate; try reflexivity;
+    try (destruct H as (A & B & C); try discriminate; exfalso; apply C; auto);
+    repeat split; try reflexivity; intros [X Y]; congruence.
+Qed.
+(* the code before fix bce9086 *)
+Lemma done_stores_prefix_spec gpan tpan isco cst :
+  done_stores_prefix gpan tpan isco cst = true <-> gpan = false /\ tpan = true /\ ~ (isco = true /\ cst = 1%Z).
+Proof.
+  unfold done_stores_prefix, is_canceled.
   destruct gpan, tpan, isco; cbn; try destruct (Z.eqb_spec cst 1); cbn; split; intro H;
     try discriminate; try reflexivity;
     try (destruct H as (A & B & C); try discriminate; exfalso; apply C; auto);
     repeat split; try reflexivity; intros [X Y]; congruence.
 Qed.
-Lemma read_guard_never_poisons gpan tpan isco cst : drop_poisons GR gpan tpan isco cst = false.
+Lemma read_guard_never_poisons fixd gpan tpan isco cst cunw : drop_poisons fixd GR gpan tpan isco cst cunw = false.
 Proof. reflexivity. Qed.
-Lemma thread_poisons_iff k gpan tpan cst :
-  drop_poisons k gpan tpan false cst = has_flag k && negb gpan && tpan.
-Proof. unfold drop_poisons, done_stores. cbn. rewrite andb_true_r. now rewrite andb_assoc. Qed.
+Lemma thread_poisons_iff fixd k gpan tpan cst cunw :
+  drop_poisons fixd k gpan tpan false cst cunw = has_flag k && negb gpan && tpan.
+Proof. unfold drop_poisons, done_stores, done_stores_prefix. destruct fixd; cbn; rewrite andb_true_r; now rewrite andb_assoc. Qed.
 
 Section Thm.
 Variable isco : nat -> bool.
 Variable ismutex : nat -> bool.
-Notation step := (step isco ismutex).
-Notation Reach := (Reach isco ismutex).
+Variable fixd : bool.
+Notation step := (step isco ismutex fixd).
+Notation Reach := (Reach isco ismutex fixd).
 Notation Inv := (Inv isco ismutex).
-Notation poisons := (poisons isco).
+Notation poisons := (poisons isco fixd).
 
 (* the two ways a guard is dropped: explicitly, or by the unwinding of the frames that own it *)
 Definition drops (s : st) (a : action) (t : nat) (g : guard) : Prop :=
   (a = DropG t (gid g) \/ a = UnwDrop t (gid g)) /\ find_g (gid g) (held (T s t)) = Some g.
 
-Lemma drops_do_drop s a t g s' : drops s a t g -> step s a = Some s' -> s' = do_drop isco s t g.
+Lemma drops_do_drop s a t g s' : drops s a t g -> step s a = Some s' -> s' = do_drop isco fixd s t g.
 Proof.
   intros [[->| ->] F] H; cbn [PoisonModel.step] in H; rewrite F in H.
   - destruct (alive (T s t)); inversion H; reflexivity.
@@ -43,7 +53,7 @@ Qed.
 (* (i) exactly what the drop does to the flag: Flag::done, in every situation; no other lock is touched *)
 Theorem drop_exact s a t g s' : drops s a t g -> step s a = Some s' ->
   failed (L s' (glock g)) = failed (L s (glock g)) ||
-                            drop_poisons (gk g) (gpan g) (panicking (T s t)) (isco t) (cst (T s t)) /\
+                            drop_poisons fixd (gk g) (gpan g) (panicking (T s t)) (isco t) (cst (T s t)) (cunw (T s t)) /\
   forall l, l <> glock g -> L s' l = L s l.
 Proof.
   intros D H. rewrite (drops_do_drop _ _ _ _ _ D H). cbn [do_drop L]. split.
@@ -86,7 +96,7 @@ Qed.
 (* the flag is never cleared *)
 Theorem poisoned_stays_poisoned s a s' l : step s a = Some s' -> failed (L s l) = true -> failed (L s' l) = true.
 Proof.
-  intros H F. destruct (step_shape _ _ _ _ _ H) as [(t & l0 & k & _ & _ & _ & _ & ->)|[(t & g0 & _ & ->)|[HL _]]].
+  intros H F. destruct (step_shape _ _ _ _ _ _ H) as [(t & l0 & k & _ & _ & _ & _ & ->)|[(t & g0 & _ & ->)|[HL _]]].
   - unfold lock_st. cbn [L]. destruct (Nat.eq_dec l l0) as [->|NE]; [rewrite upd_eq|rewrite upd_neq by assumption; exact F].
     destruct k; cbn; exact F.
   - cbn [do_drop L]. destruct (Nat.eq_dec l (glock g0)) as [->|NE]; [rewrite upd_eq|rewrite upd_neq by assumption; exact F].
@@ -157,57 +167,72 @@ Qed.
    of every unwinding that is in progress *)
 Theorem started_inside s t g m ins : Reach s ->
   In g (held (T s t)) -> gpan g = false -> In (CUnw m ins) (ctl (T s t)) -> In (gid g) ins.
-Proof. intros R. apply (J3 _ _ _ (inv_reach _ _ _ R)). Qed.
+Proof. intros R. apply (J3 _ _ _ (inv_reach _ _ _ _ R)). Qed.
 
-(* a cancellation in progress means: a coroutine whose cancel bit is set (it is never cleared) *)
+(* a cancellation in progress means: a coroutine whose cancel bit is set (it is never cleared) and whose mark
+   `cunw` (Cancel.unwinding) is set *)
 Theorem cancel_unwinding_has_the_bit s t : Reach s -> cause (T s t) = Some MCancel ->
-  isco t = true /\ cancel_bit (T s t) = true /\ (cancel_disabled (T s t) = false -> cst (T s t) = 1%Z).
+  isco t = true /\ cancel_bit (T s t) = true /\ cunw (T s t) = true.
 Proof.
   intros R C. apply inv_reach in R. destruct (cause_in _ _ C) as [ins I].
-  destruct (J2 _ _ _ R _ _ I) as [A B]. split; [exact A|]. split; [exact B|].
-  unfold cancel_disabled. intro D. apply Z.leb_gt in D. pose proof (J1 _ _ _ R t) as P.
-  assert (X : cst (T s t) = 0%Z \/ cst (T s t) = 1%Z) by lia. destruct X as [X|X]; [rewrite X in B; discriminate|exact X].
+  destruct (J2 _ _ _ R _ _ I) as [A B]. split; [exact A|]. split; [exact B|]. apply (J9 _ _ _ R _ _ I).
 Qed.
 
-(* (i) a guard dropped by a cancellation unwind never poisons (unless the drop happens inside a section that has
-   the cancel disabled: the code reads `state == 1`; no such section of the runtime drops a guard of the caller) *)
-Theorem cancel_unwind_never_poisons s t g : Reach s ->
-  cause (T s t) = Some MCancel -> cancel_disabled (T s t) = false -> poisons s t g = false.
+(* ---- the decision of the code as it is now (fix bce9086) ---- *)
+Hypothesis Fx : fixd = true.
+
+(* (i) exactly: the drop poisons <-> write/mutex guard, the panic started inside the guard, and not (coroutine in which
+   the cancel panic has been raised).  No premise: pending cancel requests and the disable count do not matter. *)
+Theorem poison_iff_exact s t g :
+  poisons s t g = has_flag (gk g) && started_inside_now (T s t) g && negb (isco t && cunw (T s t)).
 Proof.
-  intros R C D. destruct (cancel_unwinding_has_the_bit _ _ R C) as (A & _ & E). specialize (E D).
-  unfold PoisonModel.poisons, drop_poisons, done_stores, is_canceled. rewrite A, E. cbn.
-  rewrite !andb_false_r. reflexivity.
+  unfold PoisonModel.poisons, drop_poisons, done_stores, started_inside_now. rewrite Fx.
+  destruct (has_flag (gk g)), (gpan g), (panicking (T s t)), (isco t), (cunw (T s t)); reflexivity.
 Qed.
 
-(* (i) a write / mutex guard dropped by a genuine panic that started inside it poisons - PARTIAL: provided no
-   cancel request is pending on the coroutine (threads: unconditionally) *)
-Theorem genuine_panic_poisons_partial s t g :
+(* (i) a guard dropped by a cancellation unwind never poisons - whatever the disable count is *)
+Theorem cancel_unwind_never_poisons s t g : Reach s -> cause (T s t) = Some MCancel -> poisons s t g = false.
+Proof.
+  intros R C. destruct (cancel_unwinding_has_the_bit _ _ R C) as (A & _ & E).
+  rewrite poison_iff_exact, A, E. cbn. apply andb_false_r.
+Qed.
+
+(* (i) a write / mutex guard dropped by a panic that started inside it poisons, for a thread always, for a coroutine
+   unless the cancel panic has been raised in it - a merely pending cancel request does not matter any more *)
+Theorem genuine_panic_poisons s t g :
   has_flag (gk g) = true -> gpan g = false -> panicking (T s t) = true ->
-  (isco t = false \/ cancel_bit (T s t) = false) -> poisons s t g = true.
+  (isco t = false \/ cunw (T s t) = false) -> poisons s t g = true.
 Proof.
-  intros HF GP P C. unfold PoisonModel.poisons, drop_poisons, done_stores, is_canceled. rewrite HF, GP, P. cbn.
-  destruct C as [C|C]; [rewrite C; reflexivity|]. destruct (isco t); [|reflexivity].
-  unfold cancel_bit in C. destruct (Z.eqb_spec (cst (T s t)) 1) as [E|E]; [rewrite E in C; discriminate|reflexivity].
+  intros HF GP P C. rewrite poison_iff_exact. unfold started_inside_now. rewrite HF, GP, P. cbn.
+  destruct C as [C|C]; rewrite C; [reflexivity|]. rewrite andb_false_r. reflexivity.
+Qed.
+(* in particular: as long as no cancel panic has been raised in the task, every genuine unwinding poisons - with a
+   cancel request pending (finding F32) or not *)
+Theorem pending_cancel_request_does_not_matter s t g : Reach s -> In g (held (T s t)) ->
+  has_flag (gk g) = true -> gpan g = false -> panicking (T s t) = true -> swal (T s t) = false ->
+  (forall ins, ~ In (CUnw MCancel ins) (ctl (T s t))) -> poisons s t g = true.
+Proof.
+  intros R G HF GP P SW NC. apply genuine_panic_poisons; auto. right.
+  destruct (cunw (T s t)) eqn:CU; [|reflexivity]. exfalso. apply inv_reach in R.
+  destruct (J10 _ _ _ R t CU) as [[ins I]|[S|F]]; [apply (NC ins I)|congruence|].
+  destruct (J6 _ _ _ R t F) as [H _]. rewrite H in G. destruct G.
 Qed.
 
-(* (i) the statement of the property as an equivalence - PARTIAL (two premises):
-     P1  no cancel request is pending on a coroutine that unwinds by a genuine panic
-     P2  a guard is not dropped while the cancel is disabled during a cancellation unwind
+(* (i) the statement of the property as an equivalence in terms of WHAT unwinds - PARTIAL, one premise:
+     P   no cancel panic has been raised in a task that unwinds by a genuine panic, i.e. the task's own code has not
+         caught its cancel panic with catch_unwind (earlier, or in a destructor that runs during the genuine unwinding)
    Then: the drop poisons  <->  write/mutex guard, the panic started inside the guard, and the unwinding is not a
-   cancellation. *)
-Theorem poison_iff_partial s t g : Reach s -> In g (held (T s t)) ->
-  (genuine (cause (T s t)) = true -> isco t && cancel_bit (T s t) = false) ->
-  (cause (T s t) = Some MCancel -> cancel_disabled (T s t) = false) ->
+   cancellation.  Without P: swallowed_cancel_refuted. *)
+Theorem poison_iff_partial s t g : Reach s ->
+  (genuine (cause (T s t)) = true -> cunw (T s t) = false) ->
   poisons s t g = has_flag (gk g) && started_inside_now (T s t) g && genuine (cause (T s t)).
 Proof.
-  intros R G P1 P2. unfold started_inside_now.
-  destruct (has_flag (gk g)) eqn:HF; [|unfold PoisonModel.poisons, drop_poisons; rewrite HF; reflexivity].
-  destruct (gpan g) eqn:GP; [unfold PoisonModel.poisons, drop_poisons, done_stores; rewrite GP, HF; reflexivity|].
-  destruct (panicking (T s t)) eqn:P.
-  - destruct (proj1 (panicking_cause _) P) as [[v|] C]; rewrite C in *; cbn [genuine andb negb].
-    + apply genuine_panic_poisons_partial; auto. specialize (P1 eq_refl). apply andb_false_iff in P1. exact P1.
-    + apply cancel_unwind_never_poisons; auto.
-  - unfold PoisonModel.poisons, drop_poisons, done_stores. rewrite P, GP, HF. reflexivity.
+  intros R P1. rewrite poison_iff_exact. unfold started_inside_now.
+  destruct (has_flag (gk g)); [|reflexivity]. destruct (gpan g); [reflexivity|].
+  destruct (panicking (T s t)) eqn:P; [|reflexivity]. cbn [negb andb].
+  destruct (proj1 (panicking_cause _) P) as [[v|] C]; rewrite C in *; cbn [genuine].
+  - rewrite (P1 eq_refl). rewrite andb_false_r. reflexivity.
+  - destruct (cancel_unwinding_has_the_bit _ _ R C) as (A & _ & E). rewrite A, E. reflexivity.
 Qed.
 
 (* a task that has ended owns no guard, is the owner of no lock and is counted as a reader of none *)
@@ -266,27 +291,62 @@ Qed.
 
 End Thm.
 
-(* ---- the full equivalence is REFUTED on the faithful model (reported as a potential defect of `may`):
-   a coroutine takes a Mutex, a cancel() request reaches it (it is not at a cancellation point), it panics for
-   real with payload 7 while it holds the guard: the unwinding drops the guard, the lock is released, the task
-   ends with the panic payload (that is what join() reports) - and the lock is NOT poisoned, because Flag::done
-   decides "cancelled" from the flag (state == 1), not from what is unwinding. ---- *)
+(* ---- the theorems about the decision, instantiated for the code as it is now (fixd = true) ---- *)
+Definition now_poison_iff_exact isco := poison_iff_exact isco true eq_refl.
+Definition now_cancel_unwind_never_poisons isco ismutex := cancel_unwind_never_poisons isco ismutex true eq_refl.
+Definition now_genuine_panic_poisons isco := genuine_panic_poisons isco true eq_refl.
+Definition now_pending_cancel_request_does_not_matter isco ismutex := pending_cancel_request_does_not_matter isco ismutex true eq_refl.
+Definition now_poison_iff_partial isco ismutex := poison_iff_partial isco ismutex true eq_refl.
+
+(* ---- BEFORE fix bce9086 (variant fixd = false; finding F32): a coroutine takes a Mutex, a cancel() request reaches it
+   (it is not at a cancellation point), it panics for real with payload 7 while it holds the guard: the unwinding
+   drops the guard, the lock is released, the task ends with the panic payload (that is what join() reports) - and
+   the lock is NOT poisoned, because Flag::done decided "cancelled" from the flag (state == 1). ---- *)
 Definition refute_sched : list action := [Lock 0 0 GM; CancelReq 0; PanicStart 0 7; UnwDrop 0 0; UnwCatch 0].
-Theorem poison_iff_refuted :
-  exists s s' g, Reach (fun _ => true) (fun _ => true) s /\
+Theorem poison_iff_prefix_refuted :
+  exists s s' g, Reach (fun _ => true) (fun _ => true) false s /\
     In g (held (T s 0)) /\ has_flag (gk g) = true /\ started_inside_now (T s 0) g = true /\ genuine (cause (T s 0)) = true /\
-    step (fun _ => true) (fun _ => true) s (UnwDrop 0 (gid g)) = Some s' /\ failed (L s' (glock g)) = false /\
-    (exists s'', run (fun _ => true) (fun _ => true) s' [UnwCatch 0] = Some s'' /\
+    cunw (T s 0) = false /\
+    step (fun _ => true) (fun _ => true) false s (UnwDrop 0 (gid g)) = Some s' /\ failed (L s' (glock g)) = false /\
+    (exists s'', run (fun _ => true) (fun _ => true) false s' [UnwCatch 0] = Some s'' /\
                  fin (T s'' 0) = Some (OPan 7) /\ failed (L s'' 0) = false /\ wheld (L s'' 0) = None).
 Proof.
-  destruct (run (fun _ => true) (fun _ => true) init (firstn 3 refute_sched)) as [s|] eqn:E; [|vm_compute in E; discriminate].
-  exists s. pose proof (run_reach _ _ _ _ _ (R0 _ _) E) as R.
+  destruct (run (fun _ => true) (fun _ => true) false init (firstn 3 refute_sched)) as [s|] eqn:E; [|vm_compute in E; discriminate].
+  exists s. pose proof (run_reach _ _ _ _ _ _ (R0 _ _ _) E) as R.
   vm_compute in E. inversion E; subst; clear E.
   eexists. eexists. split; [exact R|]. split; [left; reflexivity|]. vm_compute. repeat split; eauto.
 Qed.
 
+(* the same schedule on the code as it is now poisons *)
+Example pending_cancel_then_panic_poisons_now :
+  exists s, run (fun _ => true) (fun _ => true) true init refute_sched = Some s /\
+            fin (T s 0) = Some (OPan 7) /\ failed (L s 0) = true /\ wheld (L s 0) = None.
+Proof. vm_compute. eauto. Qed.
+
+(* and a cancellation unwind does not, also inside a section with the cancel disabled *)
+Example cancel_unwind_does_not_poison_now :
+  exists s, run (fun _ => true) (fun _ => true) true init
+              [Lock 0 0 GM; CancelReq 0; CancelStart 0; Disable 0; UnwDrop 0 0; Enable 0; UnwCatch 0] = Some s /\
+            fin (T s 0) = Some OCan /\ failed (L s 0) = false /\ wheld (L s 0) = None.
+Proof. vm_compute. eauto. Qed.
+
+(* ---- the residue of the fix (reported; replay: d_poison mode 10 with MAYV_STRICT10=1): Cancel.unwinding is never
+   cleared.  A coroutine whose own code catches its cancel panic (catch_unwind around a cancellation point) and goes
+   on, then takes a Mutex and panics for real inside the guard: not poisoned. ---- *)
+Definition swallow_sched : list action :=
+  [CancelReq 0; PushCatch 0; CancelStart 0; UnwCatch 0; Lock 0 0 GM; PanicStart 0 7; UnwDrop 0 0; UnwCatch 0].
+Theorem swallowed_cancel_refuted :
+  exists s, Reach (fun _ => true) (fun _ => true) true s /\
+    run (fun _ => true) (fun _ => true) true init swallow_sched = Some s /\
+    fin (T s 0) = Some (OPan 7) /\ swal (T s 0) = true /\ failed (L s 0) = false /\ wheld (L s 0) = None.
+Proof.
+  destruct (run (fun _ => true) (fun _ => true) true init swallow_sched) as [s|] eqn:E; [|vm_compute in E; discriminate].
+  exists s. split; [eapply run_reach; [apply R0|exact E]|]. split; [reflexivity|].
+  vm_compute in E. inversion E; subst; clear E. cbn. repeat split.
+Qed.
+
 (* the same schedule without the cancel request poisons *)
 Example same_run_without_cancel_poisons :
-  exists s, run (fun _ => true) (fun _ => true) init [Lock 0 0 GM; PanicStart 0 7; UnwDrop 0 0; UnwCatch 0] = Some s /\
+  exists s, run (fun _ => true) (fun _ => true) true init [Lock 0 0 GM; PanicStart 0 7; UnwDrop 0 0; UnwCatch 0] = Some s /\
             fin (T s 0) = Some (OPan 7) /\ failed (L s 0) = true /\ wheld (L s 0) = None.
 Proof. vm_compute. eauto. Qed.
